@@ -235,6 +235,10 @@ class CMapDB:
         name = name.replace("\0", "")
         filename = "%s.pickle.gz" % name
         log.debug("loading: %r", name)
+        if os.path.basename(filename) != filename:
+            # CMap names come from the document: never let one select a file
+            # outside the CMap resource directories
+            raise CMapDB.CMapNotFound(name)
         cmap_paths = (
             os.environ.get("CMAP_PATH", "/usr/share/pdfminer/"),
             os.path.join(os.path.dirname(__file__), "cmap"),
